@@ -8,6 +8,7 @@ from typing import Dict, List, Optional, Set, Tuple
 from .core import AnalysisError, Loc, Report, norm
 from .inifront import IniConfig, Obj
 from .config_graph import ConfigGraph
+from .normalize import canon
 from .pyfront import ClassInfo, Program, body_without_docstring, param_names, self_attr
 
 
@@ -42,6 +43,12 @@ class OccupancyRoles:
                     self.active_cell, self.active_id = self_attr(n.value.elts[0]), self_attr(n.value.elts[1])
         if not (self.active_cell and self.active_id):
             raise AnalysisError("active cell / active identifier attributes not identified by role")
+        # relevance predicate: the attribute that the constructor binds to a lambda
+        self.relevant = None
+        init = self.cls.methods.get("__init__")
+        for n in ast.walk(init) if init is not None else []:
+            if isinstance(n, ast.Assign) and self_attr(n.targets[0]) and any(isinstance(x, ast.Lambda) for x in ast.walk(n.value)):
+                self.relevant = self_attr(n.targets[0])
 
 
 def _append_target(call: ast.Call, roles: OccupancyRoles) -> Optional[Tuple[str, str]]:
@@ -59,56 +66,76 @@ def _append_target(call: ast.Call, roles: OccupancyRoles) -> Optional[Tuple[str,
     return None
 
 
-def _is_cap_test(test: ast.AST, roles: OccupancyRoles, cell: str) -> Tuple[bool, str]:
-    """len(occupants[cell]) < max  or  unbounded"""
-    if not (isinstance(test, ast.BoolOp) and isinstance(test.op, ast.Or) and len(test.values) == 2):
-        return False, "the placement test must be `len(occupants[cell]) < maximum or unbounded`"
-    lens = [v for v in test.values if isinstance(v, ast.Compare)]
-    flags = [v for v in test.values if not isinstance(v, ast.Compare)]
-    if len(lens) != 1 or len(flags) != 1:
-        return False, "the placement test must combine the length test with the not-bounded flag"
-    c = lens[0]
-    ok_len = isinstance(c.ops[0], ast.Lt) and norm(c.left) == f"len(self.{roles.occ}[{cell}])" and self_attr(c.comparators[0]) is not None
-    ok_flag = self_attr(flags[0]) is not None and "bounded" in (self_attr(flags[0]) or "")
-    return ok_len and ok_flag, "length test must be `len(occupants[cell]) < maximum` for the same cell, or-ed with the not-bounded flag"
+def _cap_table(test: ast.AST, roles: OccupancyRoles, cell: str) -> Optional[Tuple[bool, bool, bool, bool]]:
+    """
+    Truth table of a placement test over the two atoms  A: len(occupants[cell]) < maximum  and  U: occupancy not bounded,
+    in the order (A,U) = (F,F), (F,T), (T,F), (T,T); None if the test contains anything else.
+    """
+    def ev(e: ast.AST, a: bool, u: bool) -> Optional[bool]:
+        if isinstance(e, ast.BoolOp):
+            vs = [ev(v, a, u) for v in e.values]
+            if any(v is None for v in vs):
+                return None
+            return all(vs) if isinstance(e.op, ast.And) else any(vs)
+        if isinstance(e, ast.UnaryOp) and isinstance(e.op, ast.Not):
+            v = ev(e.operand, a, u)
+            return None if v is None else not v
+        if isinstance(e, ast.Compare) and len(e.ops) == 1:
+            l, r, op = e.left, e.comparators[0], e.ops[0]
+            length = f"len(self.{roles.occ}[{cell}])"
+            if norm(l) == length and self_attr(r) is not None and "maximum" in (self_attr(r) or ""):
+                return {ast.Lt: a, ast.GtE: not a}.get(type(op))
+            if norm(r) == length and self_attr(l) is not None and "maximum" in (self_attr(l) or ""):
+                return {ast.Gt: a, ast.LtE: not a}.get(type(op))
+            return None
+        if self_attr(e) is not None and "bounded" in (self_attr(e) or ""):
+            return u
+        return None
+    rows = [ev(test, a, u) for a in (False, True) for u in (False, True)]
+    return None if any(r is None for r in rows) else tuple(rows)  # type: ignore
 
 
 def check_occupancy(prog: Program, rep: Report) -> None:
     roles = OccupancyRoles(prog)
     cls = roles.cls
     file = cls.file
+    # canonical forms (private helpers inlined, locals propagated, negated tests flipped); a helper that only serves other
+    # methods is judged where it was inlined and as a routine of its own
+    methods = {name: canon(prog, cls, fn) for name, fn in cls.methods.items()}
     placement_sites = []
-    for fn in cls.methods.values():
+    for fn in methods.values():
         for n in ast.walk(fn):
             if isinstance(n, ast.If):
                 then_apps = [(_append_target(c, roles), c) for st in n.body for c in ast.walk(st) if isinstance(c, ast.Call)]
                 else_apps = [(_append_target(c, roles), c) for st in n.orelse for c in ast.walk(st) if isinstance(c, ast.Call)]
                 then_apps = [(t, c) for t, c in then_apps if t]
                 else_apps = [(t, c) for t, c in else_apps if t]
-                if len(then_apps) == 1 and len(else_apps) == 1 and then_apps[0][0][0] == "occ" and else_apps[0][0][0] == "sur" \
+                if len(then_apps) == 1 and len(else_apps) == 1 and {then_apps[0][0][0], else_apps[0][0][0]} == {"occ", "sur"} \
                         and len(n.body) == 1 and len(n.orelse) == 1:
-                    placement_sites.append((fn, n, then_apps[0], else_apps[0]))
-    for fn, site, (tt, tc), (et, ec) in placement_sites:
+                    occ_first = then_apps[0][0][0] == "occ"
+                    placement_sites.append((fn, n, then_apps[0] if occ_first else else_apps[0], else_apps[0] if occ_first else then_apps[0], occ_first))
+    shapes = set()
+    for fn, site, (tt, tc), (et, ec), occ_first in placement_sites:
         loc = Loc(file, site.lineno, f"{cls.name}.{fn.name}")
-        ok, why = _is_cap_test(site.test, roles, tt[1])
-        rep.ob("R11.1-placement-cap", ok, loc, site.test,
-               f"a unit is filed as occupant iff its cell has room or occupancy is unbounded, else as surplus: {why}")
+        table = _cap_table(site.test, roles, tt[1])
+        want = (False, True, True, True) if occ_first else (True, False, False, False)
+        shapes.add(None if table is None else (table if occ_first else tuple(not x for x in table)))
+        rep.ob("R11.1-placement-cap", None if table is None else table == want, loc, site.test,
+               f"a unit is filed as occupant iff its cell has room or occupancy is unbounded, else as surplus: over (has room, unbounded) "
+               f"= (F,F),(F,T),(T,F),(T,T) the occupant branch is taken for {table if occ_first or table is None else tuple(not x for x in table)}"
+               if table is not None else "placement test not interpreted (expected a combination of `len(occupants[cell]) < maximum` and the not-bounded flag)")
         same_cell = tt[1] == et[1]
         same_id = norm(tc.args[0]) == norm(ec.args[0])
         rep.ob("R11.1-placement-same-unit", same_cell and same_id, loc, f"occupant/surplus placement of {norm(tc.args[0])} in {tt[1]}",
                "both branches of a placement must file the same unit under the same cell")
     rep.ob("R11.1-placement-sites", len(placement_sites) >= 2, Loc(file, cls.node.lineno, cls.name), f"{len(placement_sites)} placement sites",
            "placement in initialize and re-insertion in update not found")
-    # sibling agreement of all placement tests (modulo the cell expression)
-    shapes = set()
-    for fn, site, (tt, _), _ in placement_sites:
-        parts = site.test.values if isinstance(site.test, ast.BoolOp) else [site.test]
-        shapes.add(" | ".join(sorted(norm(v).replace(tt[1], "<cell>") for v in parts)))
-    rep.ob("R11.1-placement-agreement", len(shapes) == 1, Loc(file, cls.node.lineno, cls.name), f"placement tests: {sorted(shapes)}",
+    # sibling agreement of all placement tests (same truth table)
+    rep.ob("R11.1-placement-agreement", len(shapes) == 1, Loc(file, cls.node.lineno, cls.name), f"placement tests: {sorted(map(str, shapes))}",
            "initialize and update decide occupant-vs-surplus differently")
     # other appends to the occupant table: only right after a removal from the same cell's occupant list
-    site_calls = {id(tc) for _, _, (_, tc), _ in placement_sites}
-    for fn in cls.methods.values():
+    site_calls = {id(tc) for _, _, (_, tc), _, _ in placement_sites}
+    for fn in methods.values():
         for n in ast.walk(fn):
             if isinstance(n, ast.Call) and _append_target(n, roles) and _append_target(n, roles)[0] == "occ" and id(n) not in site_calls:
                 cell = _append_target(n, roles)[1]
@@ -129,7 +156,7 @@ def check_occupancy(prog: Program, rep: Report) -> None:
                        "an occupant is appended outside a cap-guarded placement and not in exchange for a removed occupant of "
                        "the same cell: the cell can list more occupants than its limit")
     # a surplus list may be dropped only when it is empty
-    for fn in cls.methods.values():
+    for fn in methods.values():
         for n in ast.walk(fn):
             if isinstance(n, ast.Delete) and any(isinstance(t, ast.Subscript) and self_attr(t.value) == roles.sur for t in n.targets):
                 cell = [norm(t.slice) for t in n.targets if isinstance(t, ast.Subscript)][0]
@@ -151,22 +178,26 @@ def check_occupancy(prog: Program, rep: Report) -> None:
                        "a cell's surplus list may be deleted only when it has become empty; deleting a non-empty list loses its units: "
                        "they are then recorded neither as occupants nor as surplus and no event family treats them")
     # ---- update --------------------------------------------------------------------------------------------------------
-    upd = cls.methods.get("update")
+    upd = methods.get("update")
     if upd is None:
         raise AnalysisError("update not found")
     top_ifs = [n for n in body_without_docstring(upd) if isinstance(n, ast.If)]
-    main = None
+    main_if = None
     for n in top_ifs:
-        if isinstance(n.test, ast.Compare) and isinstance(n.test.ops[0], ast.NotEq) and roles.active_id in norm(n.test):
-            main = n
+        if isinstance(n.test, ast.Compare) and len(n.test.ops) == 1 and isinstance(n.test.ops[0], (ast.NotEq, ast.Eq)) and roles.active_id in norm(n.test):
+            main_if = n
     loc = Loc(file, upd.lineno, f"{cls.name}.update")
-    if main is None:
+    if main_if is None:
         rep.ob("R11.2-update-shape", None, loc, "update", "branch on 'active unit changed' not recognised")
         return
-    new_unit = norm(main.test.left).replace(".identifier", "") if roles.active_id in norm(main.test.comparators[0]) \
-        else norm(main.test.comparators[0]).replace(".identifier", "")
+    changed_first = isinstance(main_if.test.ops[0], ast.NotEq)
+    # the branch taken when the active unit changed / stayed the same, whichever way the test is written
+    main = ast.Module(body=main_if.body if changed_first else main_if.orelse, type_ignores=[])
+    same_branch = main_if.orelse if changed_first else main_if.body
+    new_unit = norm(main_if.test.left).replace(".identifier", "") if roles.active_id in norm(main_if.test.comparators[0]) \
+        else norm(main_if.test.comparators[0]).replace(".identifier", "")
     # R11.2: re-insertion of the previous active unit uses the recorded cell/identifier and precedes their reassignment
-    re_sites = [s for fn, s, _, _ in placement_sites if fn is upd]
+    re_sites = [s for fn, s, _, _, _ in placement_sites if fn is upd]
     first_assign_line = min([a.lineno for a in ast.walk(main) if isinstance(a, ast.Assign)
                              and any(self_attr(t) in (roles.active_cell, roles.active_id) for t in a.targets)] or [10 ** 9])
     for s in re_sites:
@@ -205,29 +236,37 @@ def check_occupancy(prog: Program, rep: Report) -> None:
     rep.ob("R11.3-active-cell-from-position", okc, loc, "active cell = position_to_cell(new active unit's position)",
            "the recorded active cell must be the cell of the active unit's current position")
     # R11.3 same-unit branch refreshes the cell
-    same = main.orelse
+    same = same_branch
     oks = len(same) >= 1 and any(isinstance(a, ast.Assign) and self_attr(a.targets[0]) == roles.active_cell and "position_to_cell" in norm(a.value)
                                   for st in same for a in ast.walk(st))
     rep.ob("R11.3-refresh-on-crossing", oks, loc, "same active unit: refresh the active cell",
            "when the active unit is unchanged (e.g. after a cell-boundary event) its recorded cell must be refreshed from its position")
     # irrelevant new active unit: both attributes cleared
-    rel_ifs = [n for n in main.body if isinstance(n, ast.If) and "is_relevant" in norm(n.test)]
+    # the branch on the relevance of the new active unit, recognised by what its two sides do: one records the new unit as
+    # active, the other clears both attributes
     okr = False
-    if rel_ifs:
-        cl = [norm(a) for st in rel_ifs[0].orelse for a in ast.walk(st) if isinstance(a, ast.Assign)]
-        okr = f"self.{roles.active_id} = None" in cl and f"self.{roles.active_cell} = None" in cl
+    for n in ast.walk(main):
+        if not isinstance(n, ast.If):
+            continue
+        for clear, record in ((n.body, n.orelse), (n.orelse, n.body)):
+            cl = [norm(a) for st in clear for a in ast.walk(st) if isinstance(a, ast.Assign)]
+            rec = [a for st in record for a in ast.walk(st) if isinstance(a, ast.Assign) and self_attr(a.targets[0]) == roles.active_id
+                   and norm(a.value) == f"{new_unit}.identifier"]
+            if f"self.{roles.active_id} = None" in cl and f"self.{roles.active_cell} = None" in cl and rec:
+                okr = True
     rep.ob("R11.1-irrelevant-active-cleared", okr, loc, "irrelevant active unit: no active cell",
            "an active unit that is not relevant to this cell system must be recorded nowhere")
     # ---- initialize ------------------------------------------------------------------------------------------------------
-    ini = cls.methods.get("initialize")
-    isites = [s for fn, s, _, _ in placement_sites if fn is ini]
+    ini = methods.get("initialize")
+    isites = [s for fn, s, _, _, _ in placement_sites if fn is ini]
     lociI = Loc(file, ini.lineno if ini else 0, f"{cls.name}.initialize")
     rep.ob("R11.1-initialize-places-once", len(isites) == 1, lociI, f"{len(isites)} placement site(s) in initialize",
            "every relevant unit must be filed exactly once at initialisation")
     if isites:
         s = isites[0]
         g = _enclosing_if(ini, s)
-        rep.ob("R11.1-initialize-relevant-only", g is not None and "is_relevant" in norm(g.test), lociI, g.test if g is not None else "guard",
+        rep.ob("R11.1-initialize-relevant-only", g is not None and isinstance(g.test, ast.Call) and self_attr(g.test.func) == roles.relevant and roles.relevant is not None
+               and any(x is s for st in g.body for x in ast.walk(st)), lociI, g.test if g is not None else "guard",
                "only relevant units are recorded")
         cell_defs = [a for a in ast.walk(ini) if isinstance(a, ast.Assign) and isinstance(a.targets[0], ast.Name)
                      and "position_to_cell" in norm(a.value)]
